@@ -54,7 +54,9 @@ Program ==
   /\ visited' = {} /\ roots' = {} /\ changed' = FALSE /\ waiting' = 0 /\ cursor' = 1 /\ sweeps' = 1
   /\ lastEnd' = [p \in {"available", "liveness"} |-> NoRun]
 
-InFacts(e)  == IF e.pass = "available" THEN ToSet(e.in) ELSE <<ToSet(e.in), ToSet(e.udef)>>
+\* (u_def has a loop of its own since 52fac33, without step events: the udef field of a liveness event is whatever an
+\* earlier run left behind and is not compared here; Trace_Stable compares the u_def sets of the finished graph)
+InFacts(e)  == IF e.pass = "available" THEN ToSet(e.in) ELSE <<ToSet(e.in), {}>>
 Begin ==
   /\ Rec[l].ev = "begin"
   /\ LET e == Rec[l] ns == e.nodes I == Ids(ns) IN
@@ -63,7 +65,7 @@ Begin ==
      /\ prevs' = [i \in I |-> Field(ns, i, "prevs")]
      /\ nexts' = [i \in I |-> Field(ns, i, "nexts")]
      /\ fin'  = [i \in I |-> IF e.pass = "available" THEN Field(ns, i, "in")
-                             ELSE <<Field(ns, i, "in"), Field(ns, i, "udef")>>]
+                             ELSE <<Field(ns, i, "in"), {}>>]
      /\ fout' = [i \in I |-> Field(ns, i, "out")]
   /\ visited' = {} /\ roots' = {} /\ changed' = FALSE /\ waiting' = 0 /\ sweeps' = 1
   /\ cursor' = 1
@@ -104,7 +106,7 @@ VisitLive ==
   /\ Rec[l].ev = "visit" /\ Rec[l].pass = "liveness"
   /\ LET e == Rec[l] n == e.id
          k == Len(order) + 1 - cursor
-         i == <<ToSet(e.in), ToSet(e.udef)>>  o == ToSet(e.out)
+         i == <<ToSet(e.in), {}>>  o == ToSet(e.out)
      IN /\ SayAll("DRIFT", e,
                   When(k < 1 \/ (k >= 1 /\ order[k] # n), "liveness:visit-order")
                   \o When(changed /\ ~e.changed, "liveness:changed-flag-went-back"))
